@@ -318,7 +318,7 @@ class ExprMixin:
         ka, kb = self.kind_of(a), self.kind_of(b)
         num = {"int", "float", "bool"}
         if not (ka and kb and ((ka in num and kb in num) or kind_may_be(ka, kb))):
-            self.partial("order", (TypeError,), node, operands=(a, b), op=op)
+            self.partial("order", (TypeError,), node, operands=(a, b), cmp=op)
         self.emit("compare", node, op=op, a=a, b=b)
         if op == "<":
             return Term("lt", (a, b), kind="bool", node=node)
@@ -491,7 +491,20 @@ class ExprMixin:
         if isinstance(recv, Ext):
             if is_nil(recv):
                 return self.implicit_raise(AttributeError, node, op="getattr", operands=(recv, Const(attr)))
-            return Ext(f"{recv.name}.{attr}")
+            full = f"{recv.name}.{attr}"
+            if full.startswith(("string.", "sys.float_info.", "sys.maxsize")):
+                # stdlib data constants (not d42 code): fold
+                try:
+                    import string as _string
+                    import sys as _sys
+                    obj: Any = {"string": _string, "sys": _sys}[full.split(".")[0]]
+                    for part in full.split(".")[1:]:
+                        obj = getattr(obj, part)
+                    if isinstance(obj, (str, int, float)):
+                        return Const(obj)
+                except Exception:
+                    pass
+            return Ext(full)
         if is_ell(recv):
             return self.implicit_raise(AttributeError, node, op="getattr", operands=(recv, Const(attr)))
         if isinstance(recv, SchemaV):
@@ -549,7 +562,7 @@ class ExprMixin:
             return Term("bound", (recv, attr), node=node)
         # symbolic receivers
         k = self.kind_of(recv)
-        if k == "Schema":
+        if k is not None and k.endswith("Schema"):
             cls = getattr(recv, "cls", None)
             if attr == "props":
                 ptype = None
@@ -592,6 +605,7 @@ class ExprMixin:
         inner = Frame(fr.func, fr.module, {}, fr.cls, fr.self_val, closure=fr)
         results: List[Any] = []
         opaque = [False]
+        all_conds: List[V] = []
 
         def rec(gi: int) -> None:
             if gi == len(gens):
@@ -615,6 +629,7 @@ class ExprMixin:
                 elem = self.generic_element(it, node)
                 self.assign(g.target, elem, inner, node)
                 conds = [self.eval(c, inner) for c in g.ifs]
+                all_conds.extend(conds)
                 self.emit("comp_iter", node, iterable=it, conds=conds, make=make)
                 rec(gi + 1)
 
@@ -630,9 +645,10 @@ class ExprMixin:
         elt = results[0] if results else Const(None)
         src = self.eval(gens[0].iter, inner) if False else None
         kind = {"list": "list", "set": "set", "dict": "dict", "gen": "generator"}[make]
+        extra = (TupleV(all_conds),) if all_conds else ()
         if make == "dict":
-            return Term("dictcomp", (elt[0], elt[1], self._iter_key(gens, inner)), kind=kind, node=node)
-        return Term(make + "comp", (elt, self._iter_key(gens, inner)), kind=kind, node=node)
+            return Term("dictcomp", (elt[0], elt[1], self._iter_key(gens, inner)) + extra, kind=kind, node=node)
+        return Term(make + "comp", (elt, self._iter_key(gens, inner)) + extra, kind=kind, node=node)
 
     def _iter_key(self, gens: Any, inner: Frame) -> V:
         try:
